@@ -218,6 +218,7 @@ const (
 	encSorted
 	encShuffled
 	encRuns
+	encBlocks
 	numEncModes
 )
 
@@ -263,6 +264,34 @@ func (s *fontSpec) expandEncoding(names []string) []int {
 		switch mode {
 		case encSorted:
 			sort.Ints(codes[:m])
+		case encBlocks:
+			// sorted, cut into a drawn number of blocks (2..m), the blocks
+			// shuffled: the number of code ranges in glyph order is anything
+			// between 2 and m
+			sort.Ints(codes[:m])
+			if m >= 2 {
+				k := 2 + r.intn(m-1)
+				cuts := map[int]bool{}
+				for len(cuts) < k-1 {
+					cuts[1+r.intn(m-1)] = true
+				}
+				var blocks [][]int
+				start := 0
+				for i := 1; i <= m; i++ {
+					if i == m || cuts[i] {
+						blocks = append(blocks, append([]int(nil), codes[start:i]...))
+						start = i
+					}
+				}
+				for i := len(blocks) - 1; i > 0; i-- {
+					j := r.intn(i + 1)
+					blocks[i], blocks[j] = blocks[j], blocks[i]
+				}
+				pos := 0
+				for _, b := range blocks {
+					pos += copy(codes[pos:], b)
+				}
+			}
 		case encRuns:
 			// sorted, then the sorted sequence is cut into blocks that are permuted
 			sort.Ints(codes[:m])
